@@ -46,6 +46,7 @@ def run(an: Analysis, rep):
     rep.run(r07a, an, rep, enc)
     rep.run(r07b, an, rep, defs)
     rep.run(r07r, an, rep)
+    rep.run(r07l, an, rep)
     from .common import old_interpreter_rule
     rep.run(old_interpreter_rule, an, rep, "R07.V", ["to_json", "from_json"])
     rep.run(r075, an, rep, enc, cdec)
@@ -841,8 +842,44 @@ JSON_DECODER_REJECTIONS = {
     ("code_data._json_data::arg_from_json", "ValueError"): (2, "an operand that is neither an int nor an object / an object with none of the operand keys: not something to_json_data writes (R07.1 compares the keys)"),
     ("code_data._json_data::code_data_from_json", "ValueError"): (1, "a code object that is not a JSON object"),
     ("code_data._json_data::instruction_from_json", "ValueError"): (1, "an instruction that is not a JSON object"),
+    ("code_data._json_data::constant_value_from_json", "ValueError"): (1, "the text of a tagged string is the literal of something else than a str: to_json_data writes ascii(str) there (R07.1), R07.3 decides the test"),
     ("code_data._json_data::constant_value_from_json", "NotImplementedError"): (2, "a constant object with none of the constant tags / a float tag other than inf, -inf, nan: R07.1 and R07.3 compare tags and special values with the encoder"),
 }
+
+
+def r07l(an, rep, rule="R07.3"):
+    """What `literal_eval` makes of the text of a tagged string is a str: the schema accepts ANY string under {"string": ...}, and literal_eval turns "[1, 2]" into a
+    list and "{}" into a dict - so its result must be checked (`isinstance(result, str)`, anything else raises) before it reaches the data."""
+    n = 0
+    for f in an.closure("from_json"):
+        for c in ast.walk(f.node):
+            if not (isinstance(c, ast.Call) and (attr_chain(c.func) or "").split(".")[-1] == "literal_eval" and c.args):
+                continue
+            n += 1
+            from .encode_model import parent_map
+            pm = parent_map(f.module)
+            par = pm.get(id(c))
+            checked = False
+            var = None
+            if isinstance(par, ast.Assign) and len(par.targets) == 1 and isinstance(par.targets[0], ast.Name):
+                var = par.targets[0].id
+            elif isinstance(par, ast.NamedExpr):
+                var = par.target.id
+            if var is not None:
+                for st in ast.walk(f.node):
+                    if isinstance(st, ast.If) and any(isinstance(x, ast.Raise) for b in st.body for x in ast.walk(b)):
+                        t = st.test
+                        if isinstance(t, ast.UnaryOp) and isinstance(t.op, ast.Not) and isinstance(t.operand, ast.Call) and isinstance(t.operand.func, ast.Name) and t.operand.func.id == "isinstance" \
+                                and isinstance(t.operand.args[0], ast.Name) and t.operand.args[0].id == var and norm_src(t.operand.args[1]) == "str":
+                            checked = True
+                        if isinstance(t, ast.Compare) and len(t.ops) == 1 and isinstance(t.ops[0], (ast.IsNot, ast.NotEq)) and norm_src(t.left) == f"type({var})" and norm_src(t.comparators[0]) == "str":
+                            checked = True
+            rep.add(rule, f"{f.qual}::the value literal_eval returns is checked to be a str", checked, loc(f.module, c),
+                    f"`{var}` is refused unless it is a str" if checked else
+                    f"`{norm_src(c)[:60]}` is used as it comes: the schema accepts any string in the {{\"string\": ...}} form, and literal_eval turns \"[1, 2]\" into a list and \"{{}}\" into a dict - a "
+                    f"schema-valid document loads into a CodeData that holds a mutable, unhashable value (hash(cd) raises, `const.append(3)` changes the 'immutable' data)")
+    if n == 0:
+        rep.add(rule, "no literal_eval in the JSON decoder", True, "code_data/_json_data.py", "n/a", nontrivial=False)
 
 
 def r07r(an, rep, rule="R07.R"):
